@@ -249,7 +249,9 @@ def execute(case, ctx):
                             sim.ri_saba.keep_unsynchronized = 0
                             sim.synchronize()       # careful-user protocol (see harness/ops.py): positions are read and a particle is added
                             q = sim.particles[op["pick"] % sim.N]
-                            OPS.apply(rebound, rb, sim, cfg, dict(op="add", p=dict(m=1e-9, x=q.x + 5e-5, y=q.y, z=q.z, vx=q.vx, vy=q.vy, vz=q.vz, r=1e-4, hash=op["hash"])))
+                            # (the y offset keeps two plants on the same host apart: coincident bodies give 0/0 forces, and BS inside TRACE
+                            #  retries a NaN step forever - an input outside every listed property, observed as 20 s wall-cap timeouts)
+                            OPS.apply(rebound, rb, sim, cfg, dict(op="add", p=dict(m=1e-9, x=q.x + 5e-5, y=q.y + (op["hash"] % 5) * 1.1e-5, z=q.z, vx=q.vx, vy=q.vy, vz=q.vz, r=1e-4, hash=op["hash"])))
                     elif k == "back_to_t0":
                         if model and not state.get("armed") and sim.N - sim.N_var > 0:
                             t0 = model[0]["t"]
